@@ -35,6 +35,16 @@ CLAIMED = {
              "are concrete per letter. One recorded known finding (connection loss while polling after responsePending) is excluded by region.",
         ref="§4 C04", technique="symbolic execution of the real retry/pending state machine with z3 (CrossHair) against a reference model",
     ),
+    "C13": dict(
+        text="Bounded symbolic execution (CrossHair + z3) of the real UDSServerTransport.handle_request / UDSServer.respond / RandomUDSServer handlers: "
+             "one step from a valid state over a two-session model whose facts about the service under test are symbolic (lazily evaluated), request "
+             "bytes symbolic, every random draw symbolic; on every path the reply equals what the ISO priority chain of the statement prescribes "
+             "(or is handler-defined), suppression and state changes follow the statement, and with one switch off no exception is raised.",
+        note="Trusted: CrossHair, z3, spec/iso_server_rules.py. RNG, clock and stateful_rng are stubs; sub-function value fixed per obligation for "
+             "0x19/0x2C/0x31; ReadDTCInformation handler draws come from 3-element sets. Security seed invalidation by interleaved requests is not "
+             "an ISO rule and is not asserted.",
+        ref="§4 C13", technique="symbolic execution of the real virtual-ECU step function with z3 (CrossHair) against an ISO rule oracle",
+    ),
     "C02": dict(
         text="Bounded symbolic execution (CrossHair + z3) of the real UDSResponse.parse_dynamic / from_pdu / pdu code: for every first byte "
              "0x00-0xFF and every total length in the stated bound, with all remaining bytes symbolic, every path is explored and the "
